@@ -403,7 +403,9 @@ pub fn check_doc_accessors(ctx: &mut Ctx, t: &Tree, rng: &mut Rng) {
             }
         }
         if rng.chance(1, 10) {
-            keys.push(vec![0xff, 0xfe]); // not UTF-8
+            // not UTF-8: matches nothing, wherever it stands in the list
+            let at = rng.below(keys.len() + 1);
+            keys.insert(at, rng.pick(&[&[0xffu8, 0xfe][..], &[0xc3], &[b'a', 0x80]]).to_vec());
         }
         ctx.count("exists_keys");
         let k_info = || format!("keys={:?} ; {}", keys.iter().map(|k| String::from_utf8_lossy(k).to_string()).collect::<Vec<_>>(), info());
